@@ -13,7 +13,8 @@ import (
 // Decoder-side finding ids.
 const (
 	DecNameConflict = "KF-DEC-field-name-conflict"
-	DecStringTag    = "KF-DEC-string-tag-on-unsupported-kind"
+	DecStringTag    = "FX-DEC-string-tag-on-unsupported-kind" // fixed: the selector can never be active again
+	DecStringTagUM  = "KF-DEC-string-tag-on-unmarshaler"
 	DecCaseFoldKey  = "FX-DEC-case-insensitive-key-match" // fixed: the selector can never be active again
 	DecSliceReuse   = "KF-DEC-slice-reuse-null-element"
 )
@@ -68,6 +69,21 @@ func RepairDecSpec(s *gen.TypeSpec) {
 				if f.HasTag && strings.Contains(f.Tag, ",string") && !stringTagStd(f.T) {
 					f.Tag = strings.Replace(f.Tag, ",string", "", 1)
 					rt.Excluded(DecStringTag)
+				}
+			}
+		})
+	}
+	if rt.Active(DecStringTagUM) {
+		s.Walk(func(n *gen.TypeSpec) {
+			for i := range n.Fields {
+				f := &n.Fields[i]
+				u := f.T
+				if u.K == "ptr" {
+					u = u.Elem
+				}
+				if f.HasTag && strings.Contains(f.Tag, ",string") && isLeaf(u, "IntUT") {
+					f.Tag = strings.Replace(f.Tag, ",string", "", 1)
+					rt.Excluded(DecStringTagUM)
 				}
 			}
 		})
